@@ -103,8 +103,55 @@ let cmd_split_lm rest =
                    (zl (take n r)) (z_of_int mh) (z_of_int mr))
   | _ -> "BAD"
 
+(* sum_waveform ns nch nsr lmax ng g[ng] nrec (t len dt b2 shift nd d[nd])* prev[nrec] next[nrec]
+                npeaks (t len dt area apc[nch])* nhits (t len dt ch rec li ri)* *)
+let cmd_sum_waveform rest =
+  match ints rest with
+  | ns :: nch :: nsr :: lmax :: ng :: r ->
+      let (gains, r) = split ng r in
+      let nrec = List.hd r in
+      let rec recs k l = if k = 0 then ([], l) else
+        (match l with
+         | t :: len :: dt :: b2 :: sh :: nd :: tl ->
+             let (d, tl) = split nd tl in
+             let (rs, tl) = recs (k - 1) tl in
+             ({ sr_t = z_of_int t; sr_len = z_of_int len; sr_dt = z_of_int dt; sr_data = zl d;
+                sr_b2 = z_of_int b2; sr_shift = z_of_int sh } :: rs, tl)
+         | _ -> failwith "recs") in
+      let (rs, r) = recs nrec (List.tl r) in
+      let (prev, r) = split nrec r in
+      let (next, r) = split nrec r in
+      let np = List.hd r in
+      let rec peaks k l = if k = 0 then ([], l) else
+        (match l with
+         | t :: len :: dt :: area :: tl ->
+             let (apc, tl) = split nch tl in
+             let (ps, tl) = peaks (k - 1) tl in
+             ({ sp_t = z_of_int t; sp_len = z_of_int len; sp_dt = z_of_int dt; sp_area = z_of_int area;
+                sp_apc = zl apc; sp_data = [] } :: ps, tl)
+         | _ -> failwith "peaks") in
+      let (ps, r) = peaks np (List.tl r) in
+      let nh = List.hd r in
+      let rec hits k l = if k = 0 then [] else
+        (match l with
+         | t :: len :: dt :: ch :: rc :: li :: ri :: tl ->
+             { sh_t = z_of_int t; sh_len = z_of_int len; sh_dt = z_of_int dt; sh_ch = z_of_int ch;
+               sh_rec = z_of_int rc; sh_li = z_of_int li; sh_ri = z_of_int ri } :: hits (k - 1) tl
+         | _ -> failwith "hits") in
+      let hs = hits nh (List.tl r) in
+      (match sum_waveform (zl gains) rs (zl prev) (zl next) (z_of_int nsr) (nat_of_int lmax) (z_of_int ns)
+               (nat_of_int nch) ps hs with
+       | Err e -> Printf.sprintf "err %d" (iz e)
+       | Ok out ->
+           String.concat " | " ("ok" :: List.map (fun p ->
+             String.concat " ; " [join [iz p.sp_t; iz p.sp_len; iz p.sp_dt; iz p.sp_area];
+                                  join (List.map iz p.sp_apc);
+                                  String.concat " " (List.map q_str p.sp_data)]) out))
+  | _ -> "BAD"
+
 let handle toks =
   match toks with
+  | "sum_waveform" :: rest -> cmd_sum_waveform rest
   | "split" :: rest -> cmd_split rest
   | "split_lm" :: rest -> cmd_split_lm rest
   | "iof" :: rest -> cmd_iof rest
